@@ -1,4 +1,5 @@
 pub mod amf0;
 pub mod chunk;
 pub mod handshake;
+pub mod msg;
 pub mod sha256;
